@@ -9,7 +9,7 @@ import (
 
 // a Go type that implements the generated Node interface but is no type of the schema: a resolver returning it makes
 // the generated interface marshaller panic ("unexpected type"), inside the goroutine of its list element
-const strayFile = `package main
+const StrayFile = `package main
 
 import (
 	"reflect"
@@ -32,7 +32,7 @@ func init() { typeOf["Stray"] = reflect.TypeOf(Stray{}) }
 // per element, and the response function must still return - every worker slot is given back.
 func strayElements(meta *gen.Meta) (int, error) {
 	cfgs := []xeng.Config{xeng.QuickConfigs[0], xeng.ThoroughConfigs[2], xeng.QuickConfigs[1], xeng.ThoroughConfigs[3]}
-	probes, err := xeng.BuildProbes(xeng.ProbeSchema, cfgs, map[string]string{"stray.go": strayFile})
+	probes, err := xeng.BuildProbes(xeng.ProbeSchema, cfgs, map[string]string{"stray.go": StrayFile})
 	if err != nil {
 		return 0, err
 	}
